@@ -178,13 +178,15 @@ def minc_oracle(before, g, op, ret):
         blks = [g.blocklist[k] for k in row]
         if id(blks[0]) != i:
             return 'minc-index', 'blockindex[0] for %r does not point at the original block' % nm
+        # the continua add up to the original volume ...
+        tot = sum(G.frac(b.volume) for b in blks)
+        if not near(tot, V, REL_ARITH):
+            return 'minc-total-volume', 'continua of %r add up to %r, original volume %r (fractions %r, sum %r)' % (nm, float(tot), float(V), [float(f) for f in fr], float(S))
+        # ... in the requested proportions f_k / sum(f)
         for k, b in enumerate(blks):
             want = V * fr[k] / S
             if not near(G.frac(b.volume), want, REL_ARITH):
-                return 'minc-volume-fraction', 'block %r continuum %d has volume %r, expected V*f/sum(f) = %r' % (nm, k, float(b.volume), float(want))
-        tot = sum(G.frac(b.volume) for b in blks)
-        if not near(tot, V, REL_ARITH):
-            return 'minc-total-volume', 'continua of %r add up to %r, original volume %r' % (nm, float(tot), float(V))
+                return 'minc-volume-fraction', 'block %r continuum %d has volume %r, expected V*f_k/sum(f) = %r (fractions %r)' % (nm, k, float(b.volume), float(want), [float(f) for f in fr])
         # chain fracture -> matrix 1 -> ... -> innermost
         for k in range(L - 1):
             cs = [c for c in conkeys.get(id(blks[k]), []) if c.block[1] is blks[k + 1]]
@@ -274,8 +276,9 @@ def run_phys_history(ctx, hist, res, gen=None, nmax=0, file_leg=False, tag=''):
         before = phys(g)
         names = dict((id(b), b.name) for b in g.blocklist)
         bvol = dict((id(b), (b.name, b.volume)) for b in g.blocklist)
+        bvol_by_name = dict((b.name, b.volume) for b in g.blocklist)
         tot_before = sum(G.frac(b.volume) for b in g.blocklist)
-        if op[0] in ('minc', 'embed'):
+        if op[0] in ('minc', 'embed', 'embed_standalone'):
             inexact = True
         a = G.apply_op(g, op)
         g = a.grid
@@ -294,10 +297,14 @@ def run_phys_history(ctx, hist, res, gen=None, nmax=0, file_leg=False, tag=''):
                 m = minc_oracle(bvol, g, op, a.ret)
                 if m:
                     viol.append(dict(key=m[0], what='minc(%s): %s' % (json.dumps(op[1:])[:100], m[1]), case=case))
-            elif op[0] == 'embed' and a.flag:
+            elif op[0] in ('embed', 'embed_standalone') and a.flag:
                 tot = sum(G.frac(b.volume) for b in g.blocklist)
+                sub = sum(G.frac(b[2]) for b in op[1]['blocks'])
+                hostv = G.frac(bvol_by_name[op[2]])
                 if not near(tot, tot_before, REL_ARITH):
-                    viol.append(dict(key='embed-volume', what='embed: total volume %r -> %r' % (float(tot_before), float(tot)), case=case))
+                    viol.append(dict(key='embed-volume', what='embed: total volume %r -> %r (sub-grid volume %r)' % (float(tot_before), float(tot), float(sub)), case=case))
+                elif op[2] not in g.block or not near(G.frac(g.block[op[2]].volume), hostv - sub, REL_ARITH):
+                    viol.append(dict(key='embed-host-volume', what='embed: host block %r has volume %r, expected %r - %r' % (op[2], float(g.block[op[2]].volume), float(hostv), float(sub)), case=case))
         if st.weak and st.strong and st.cls == 'ok':
             viol.append(dict(key='inv:%s:%s' % (op[0], st.weak[0]), what='after %s the grid is inconsistent: %s' % (json.dumps(op)[:120], st.weak), case=case))
         steps.append(st)
@@ -323,7 +330,22 @@ def minc_histories(ctx, n):
         g = G.start_grid({'geo': rec})
         names = [b.name for b in g.blocklist]
         nlev = rng.randint(2, 6)
-        fr = [rng.choice([1.0, 2.0, 5.0, 0.5, 10.0, 0.125, 3.0]) for _ in range(nlev)]
+        style = j % 6
+        if style == 0:      # integer ratios / percentages
+            fr = [float(rng.choice([1, 2, 5, 10, 20, 30, 50])) for _ in range(nlev)]
+        elif style == 1:    # weights adding up to strictly less than 1 (the documentation says they are rescaled)
+            fr = [rng.choice([0.05, 0.15, 0.3, 0.02, 0.1, 0.125, 0.0625]) for _ in range(nlev)]
+            while sum(fr) >= 1.0:
+                fr = [v / 2 for v in fr]
+        elif style == 2:    # exactly 1
+            cuts = sorted(rng.sample(range(1, 64), nlev - 1))
+            fr = [(b - a) / 64.0 for a, b in zip([0] + cuts, cuts + [64])]
+        elif style == 3:    # tiny totals
+            fr = [rng.choice([1e-6, 3e-6, 2.5e-7, 1e-9]) for _ in range(nlev)]
+        elif style == 4:    # huge totals
+            fr = [rng.choice([1e6, 2.5e7, 3e5, 1e9]) for _ in range(nlev)]
+        else:
+            fr = [rng.choice([1.0, 2.0, 5.0, 0.5, 10.0, 0.125, 3.0]) for _ in range(nlev)]
         blocks = None if rng.random() < 0.4 else rng.sample(names, rng.randint(1, max(1, min(8, len(names)))))
         ops = []
         if rng.random() < 0.5:
@@ -344,7 +366,13 @@ def embed_histories(ctx, n):
             continue
         spec = c08.random_spec(rng, g)
         host = rng.choice(small)
-        out.append(G.History([['embed', spec, host, spec['blocks'][0][0], c08.random_pay(rng)]], {'geo': rec}))
+        if j % 2:
+            # the connection names the host through a standalone block of the same name: same volume as the
+            # grid's block (a copy), or another one (the block of an older version of the grid)
+            hv = float(g.block[host].volume)
+            out.append(G.History([['embed_standalone', spec, host, spec['blocks'][0][0], c08.random_pay(rng), rng.choice([hv, hv, 2 * hv, hv / 2])]], {'geo': rec}))
+        else:
+            out.append(G.History([['embed', spec, host, spec['blocks'][0][0], c08.random_pay(rng)]], {'geo': rec}))
     return out
 
 
